@@ -54,6 +54,20 @@ def exPlainOracle : Oracle := fun k =>
   else if k.path == ["TOP", "U2"] then some (.obj [("r", .atom "12")])
   else none
 
+/-- the recorded outs of `exPlain` by NODE NAME: an oracle that does not distinguish call paths
+with the same name (what `StoreOf` demands of the oracle for a naming that is not injective on
+arbitrary lists, such as the "."-join) -/
+def exPlainOuts (name : String) : Option J :=
+  if name == "TOP.GEN" then
+    some (.obj [("w", exWide "1"), ("x", .atom "3"), ("ws", .arr [exWide "8", .null, exWide "9"]), ("junk", .atom "0")])
+  else if name == "TOP.INNER.USE" then some (.obj [("r", .atom "11")])
+  else if name == "TOP.U2" then some (.obj [("r", .atom "12")])
+  else none
+
+def exPlainOracleN : Oracle := fun k => exPlainOuts (exNm k.path)
+
+def exPlainStoreN : Store := { outs := fun node _ => (exPlainOuts node).getD .null, idx := fun _ _ => [] }
+
 def exPlainStore : Store :=
   { outs := fun node f =>
       if node == "TOP.GEN" then (exPlainOracle ⟨["TOP", "GEN"], f⟩).getD .null
